@@ -70,3 +70,48 @@ pub proof fn lemma_keys_bound(a: A, m: Map<usize, usize>)
     assert forall|x: usize| m.dom().contains(x) implies x < a.tag.len() by { assert(m.contains_key(x)); }
     lemma_bounded_set(m.dom(), a.tag.len());
 }
+
+/// every key is an old key or a right vertex reachable from `root`
+pub closed spec fn keys_from(a: A, m0: Map<usize, usize>, m: Map<usize, usize>, root: usize) -> bool {
+    forall|k: usize| #[trigger] m.contains_key(k) ==> m0.contains_key(k) || reachable(a, pf_all(), root, k)
+}
+
+pub closed spec fn keys_grow(m0: Map<usize, usize>, m: Map<usize, usize>) -> bool {
+    forall|k: usize| #[trigger] m0.contains_key(k) ==> m.contains_key(k)
+}
+
+/// keys only grow, so there are at least as many
+pub proof fn lemma_keys_grow_len(m0: Map<usize, usize>, m: Map<usize, usize>)
+    requires keys_grow(m0, m),
+    ensures m0.dom().len() <= m.dom().len(),
+{
+    assert(m0.dom().subset_of(m.dom())) by {
+        assert forall|k: usize| m0.dom().contains(k) implies m.dom().contains(k) by { assert(m0.contains_key(k)); }
+    }
+    vstd::set_lib::lemma_len_subset(m0.dom(), m.dom());
+}
+
+/// the recursive call for the kid `to` of `root` added keys reachable from `to`: they are reachable from `root`
+pub proof fn lemma_keys_from_kid(a: A, m0: Map<usize, usize>, mb: Map<usize, usize>, m: Map<usize, usize>, root: usize, to: usize, j: int)
+    requires
+        keys_from(a, m0, mb, root), keys_from(a, mb, m, to),
+        root < a.edges.len(), 0 <= j < a.edges[root as int].len(), a.edges[root as int][j].1 == to,
+    ensures keys_from(a, m0, m, root),
+{
+    assert(acc(a, pf_all(), root, to)) by { assert(a.edges[root as int][j].1 == to); }
+    assert forall|k: usize| #[trigger] m.contains_key(k) implies m0.contains_key(k) || reachable(a, pf_all(), root, k) by {
+        if !mb.contains_key(k) { lemma_reach_prepend(a, pf_all(), root, to, k); }
+    }
+}
+
+/// merge(): all keys are reachable from `right`; a present vertex that is not reachable is therefore not a key, and
+/// then there are fewer keys than present vertices
+pub proof fn lemma_merge_complete(a: A, m: Map<usize, usize>, right: usize)
+    requires
+        keys_present(a, m), keys_from(a, Map::<usize, usize>::empty(), m, right), a.tag.len() <= usize::MAX,
+        m.dom().len() == present_count(a),
+    ensures
+        forall|v: int| #[trigger] present(a, v) ==> m.contains_key(v as usize) && reachable(a, pf_all(), right, v as usize),
+{
+    lemma_complete(a, m);
+}
